@@ -30,7 +30,8 @@ def _xn_active_in_call(xn: ExecNode, results: Dict[Identifier, Any]) -> bool:
     """
     if xn.active is None:
         return True
-    return bool(results[xn.active.id])
+    # honour the indexing written by the user; a flag whose producer did not run reads as None
+    return bool(xn.active.result(results))
 
 
 def copy_non_setup_xns(x_nodes: StrictDict[str, ExecNode]) -> StrictDict[str, ExecNode]:
